@@ -6,6 +6,6 @@ export GOFLAGS=-mod=mod GOPROXY=off
 cd /verif
 [ -x bin/vinst ] || (cd engine/vinst && go build -o /verif/bin/vinst .)
 rm -rf "$OUT"
-./bin/vinst -repo ${REPO:-/repo} -out "$OUT" -shim engine/shim -harness harness ${LITMUS:+-litmus engine/litmus}
+./bin/vinst -repo ${REPO:-/repo} -out "$OUT" -shim engine/shim -harness harness -litmus engine/litmus
 cd "$OUT"
 if [ "$2" = race ]; then go build -race -o vexplore ./cmd/vexplore; else go build -o vexplore ./cmd/vexplore; fi
